@@ -34,7 +34,11 @@ namespace Clipper2Lib {
       }
       if (std::abs(io_count) > 1) break;
     }
-    return io_count <= 0;
+    if (io_count != 0) return io_count < 0;
+    // every vertex of path2 is ON path1 (eg a band running along the rectangle's
+    // sides): the vertices can't tell, but path2's mid-point can
+    return PointInPolygon(GetBounds(path2).MidPoint(), path1) !=
+      PointInPolygonResult::IsOutside;
   }
 
   inline bool GetLocation(const Rect64& rec,
